@@ -3,6 +3,7 @@ C14 — A crash while writing never leaves a file that opens with wrong contents
 (what can be settled with certainty about torn signature headers).
 -/
 import SevenZ.Lemmas.Crc32
+import SevenZ.Lemmas.Crash
 import SevenZ.Model.Crash
 namespace SevenZ.C14
 open SevenZ SevenZ.Impl
@@ -40,6 +41,172 @@ theorem torn_tail_rejected (fields torn : Bytes) (pre mid1 mid2 : Bytes) (hf : f
   subst hf ht
   have := SevenZ.crc32_detects_burst pre [] mid2 mid1 hlen.symm (by omega) (fun e => hne e.symm) hb2 hb1 0
   simpa [crc32] using this
+
+/-- a completed create session leaves the signature header followed by everything written from offset 32 on -/
+theorem createOps_final (ofs size crc : Nat) (body : Bytes) :
+    applyAll [] (createOps (sigHeaderBytes ofs size crc) body) = sigHeaderBytes ofs size crc ++ body := by
+  have hs : skeleton.length = 32 := by decide
+  simp only [applyAll, createOps, List.foldl_cons, List.foldl_nil]
+  have e1 : applyWrite [] ⟨0, skeleton⟩ = skeleton := by simp [applyWrite_zero]
+  have := applyWrite_end skeleton body
+  rw [hs] at this
+  rw [e1, this, applyWrite_zero, sigBytes_length, List.drop_left' hs]
+
+/-- **What a crash can leave of a create session.** Whatever the members, the codecs and the header mode (they only
+    determine `body`, the bytes written from offset 32 on, and the three numbers in the signature header), and
+    wherever the write sequence is cut (`n` complete operations and `k` bytes of the next), the image
+    * is rejected by the reader's first gate (magic + start-header CRC), or
+    * is byte for byte the completed archive, or
+    * exhibits a CRC-32 collision between the final 20 field bytes and those same bytes with a suffix of at least
+      five bytes still holding the placeholder -- the one residual case, a 2^-32 coincidence of the header's
+      offset/size/CRC values, which no reader could tell from a completed rewrite by the start header alone. -/
+theorem create_crash_verdict (ofs size crc : Nat) (body : Bytes) (n k : Nat) :
+    startHeaderOk (crashImage [] (createOps (sigHeaderBytes ofs size crc) body) n k) = false ∨
+    crashImage [] (createOps (sigHeaderBytes ofs size crc) body) n k = sigHeaderBytes ofs size crc ++ body ∨
+    ∃ j, j < 16 ∧ (sigFields ofs size crc).take j ++ phFields.drop j ≠ sigFields ofs size crc ∧
+      crc32 ((sigFields ofs size crc).take j ++ phFields.drop j) = crc32 (sigFields ofs size crc) := by
+  have hs : skeleton.length = 32 := by decide
+  have hsig := sigBytes_length ofs size crc
+  match n with
+  | 0 =>
+    left
+    have e : crashImage [] (createOps (sigHeaderBytes ofs size crc) body) 0 k = skeleton.take k := by
+      simp [crashImage, createOps, applyAll, applyWrite_zero]
+    rw [e]
+    by_cases hk : k < 32
+    · unfold startHeaderOk
+      have hlen : decide ((skeleton.take k).length ≥ 32) = false := by
+        simp only [decide_eq_false_iff_not, List.length_take, hs]; omega
+      rw [hlen]; simp
+    · rw [List.take_of_length_le (by omega)]
+      simpa using skeleton_rejected []
+  | 1 =>
+    left
+    have e : crashImage [] (createOps (sigHeaderBytes ofs size crc) body) 1 k = skeleton ++ body.take k := by
+      have := applyWrite_end skeleton (body.take k)
+      rw [hs] at this
+      simp [crashImage, createOps, applyAll, applyWrite_zero, this]
+    rw [e]; exact skeleton_rejected _
+  | 2 =>
+    have e : crashImage [] (createOps (sigHeaderBytes ofs size crc) body) 2 k =
+        (sigHeaderBytes ofs size crc).take k ++ (skeleton ++ body).drop ((sigHeaderBytes ofs size crc).take k).length := by
+      have := applyWrite_end skeleton body
+      rw [hs] at this
+      simp [crashImage, createOps, applyAll, applyWrite_zero, this]
+    rw [e]
+    by_cases hk : 32 ≤ k
+    · right; left
+      rw [List.take_of_length_le (by omega), hsig, List.drop_left' hs]
+    · have hk' : k ≤ 32 := by omega
+      have e2 : (skeleton ++ body).drop ((sigHeaderBytes ofs size crc).take k).length = skeleton.drop k ++ body := by
+        rw [List.length_take, hsig, Nat.min_eq_left hk', List.drop_append_of_le_length (by omega)]
+      rw [e2, ← List.append_assoc, sig_parts, skeleton_parts]
+      have hA : (magic ++ [0, 4]).length = 8 := by decide
+      have hF : (sigFields ofs size crc).length = 20 := by simp [sigFields, leBytes_length]
+      have hF0 : phFields.length = 20 := by decide
+      have hbF : IsBytes (sigFields ofs size crc) :=
+        isBytes_append (isBytes_append (leBytes_isBytes _ _) (leBytes_isBytes _ _)) (leBytes_isBytes _ _)
+      have hbF0 : IsBytes phFields :=
+        isBytes_append (isBytes_append (leBytes_isBytes _ _) (leBytes_isBytes _ _)) (leBytes_isBytes _ _)
+      rcases torn_sig_cases (magic ++ [0, 4]) (leBytes (crc32 (sigFields ofs size crc)) 4) (leBytes 1 4)
+        (sigFields ofs size crc) phFields hA (leBytes_length _ _) (leBytes_length _ _) hF hF0 k hk' with h | ⟨j, hj0, hj4, h⟩ | ⟨j, hj, h⟩
+      · left; rw [h, ← skeleton_parts]; exact skeleton_rejected _
+      · -- the tear is inside the start-header CRC field: its top byte is still the placeholder's zero
+        left
+        rw [h, startHeaderOk_parts _ _ _ (by simp [leBytes_length]; omega) hF0]
+        have hX : 2 ^ 24 ≤ crc32 phFields := by decide +kernel
+        have hlt : ofLE ((leBytes (crc32 (sigFields ofs size crc)) 4).take j ++ (leBytes 1 4).drop j) < 2 ^ 24 := by
+          generalize crc32 (sigFields ofs size crc) = c
+          have hj' : j = 1 ∨ j = 2 ∨ j = 3 := by omega
+          rcases hj' with rfl | rfl | rfl <;> simp [leBytes, ofLE] <;> omega
+        simp only [beq_eq_false_iff_ne, ne_eq]
+        omega
+      · -- the tear is inside the 20 field bytes; the start-header CRC is already the final one
+        rw [h, startHeaderOk_parts _ _ _ (leBytes_length _ _) (by simp [hF, hF0]; omega)]
+        rw [ofLE_leBytes, Nat.mod_eq_of_lt (by have := crc32Update_lt 0 (sigFields ofs size crc); unfold crc32; omega)]
+        by_cases heq : (sigFields ofs size crc).take j ++ phFields.drop j = sigFields ofs size crc
+        · right; left; rw [heq, ← sig_parts]
+        · by_cases hc : crc32 ((sigFields ofs size crc).take j ++ phFields.drop j) = crc32 (sigFields ofs size crc)
+          · by_cases hj16 : j < 16
+            · right; right; exact ⟨j, hj16, heq, hc⟩
+            · exfalso
+              refine torn_tail_rejected (sigFields ofs size crc) _ ((sigFields ofs size crc).take j)
+                ((sigFields ofs size crc).drop j) (phFields.drop j) (List.take_append_drop _ _).symm rfl
+                (by simp [hF, hF0]) (by simp [hF]; omega) ?_ (isBytes_drop hbF _) (isBytes_drop hbF0 _) hc
+              intro hd; apply heq; rw [← hd, List.take_append_drop]
+          · left; simp [hc]
+  | n + 3 =>
+    right; left
+    have e : crashImage [] (createOps (sigHeaderBytes ofs size crc) body) (n + 3) k =
+        applyAll [] (createOps (sigHeaderBytes ofs size crc) body) := by
+      simp [crashImage, createOps]
+    rw [e, createOps_final]
+
+/-- the writes of a create session (raw header mode) have the create shape, and replaying all of them gives the
+    archive `sessionArchive` describes -/
+theorem sessionOps_shape {σ} (cfg : WConfig σ) (ms : List WMember) (ops : List WriteOp)
+    (h : sessionOps cfg ms = some ops) :
+    ∃ ofs size crc body, ops = createOps (sigHeaderBytes ofs size crc) body ∧
+      sessionArchive cfg ms = some (sigHeaderBytes ofs size crc ++ body) := by
+  unfold sessionOps at h
+  unfold sessionArchive
+  cases hh : sessionHeader cfg ms with
+  | none => simp [hh, bind, Option.bind] at h
+  | some H =>
+    simp only [hh, bind, Option.bind] at h ⊢
+    cases hw : writeHeaderRaw true H (32 + (sessionCompress cfg ms).1.out.length) with
+    | none => simp [hw] at h
+    | some hdr =>
+      simp only [hw, pure, Option.some.injEq] at h ⊢
+      exact ⟨_, _, _, _, h.symm, by simp [List.append_assoc]⟩
+
+/-- the same for the default (encoded) header mode -/
+theorem sessionOpsEncoded_shape {σ} (cfg : WConfig σ) (hcfg : HConfig σ) (ms : List WMember) (ops : List WriteOp)
+    (h : sessionOpsEncoded cfg hcfg ms = some ops) :
+    ∃ ofs size crc body, ops = createOps (sigHeaderBytes ofs size crc) body ∧
+      sessionArchiveEncoded cfg hcfg ms = some (sigHeaderBytes ofs size crc ++ body) := by
+  unfold sessionOpsEncoded at h
+  unfold sessionArchiveEncoded
+  cases hh : sessionHeader cfg ms with
+  | none => simp [hh, bind, Option.bind] at h
+  | some H =>
+    simp only [hh, bind, Option.bind] at h ⊢
+    cases he : encodeHeader H hcfg (sessionCompress cfg ms).1.out.length with
+    | none => simp [he] at h
+    | some pr =>
+      obtain ⟨packedHdr, record⟩ := pr
+      simp only [he, pure, Option.some.injEq] at h ⊢
+      exact ⟨_, _, _, _, h.symm, by simp [List.append_assoc]⟩
+
+/-- **C14 for create sessions, raw and encoded header mode alike.** For every member list, codec chain and
+    configuration, every crash point of the session's write sequence leaves an image that the first gate rejects, or
+    the finished archive exactly, or the CRC-32 coincidence described at `create_crash_verdict`. -/
+theorem session_crash_verdict {σ} (cfg : WConfig σ) (ms : List WMember) (ops : List WriteOp) (img : Bytes)
+    (h : sessionOps cfg ms = some ops) (ha : sessionArchive cfg ms = some img) (n k : Nat) :
+    startHeaderOk (crashImage [] ops n k) = false ∨ crashImage [] ops n k = img ∨
+    ∃ ofs size crc j, j < 16 ∧ (sigFields ofs size crc).take j ++ phFields.drop j ≠ sigFields ofs size crc ∧
+      crc32 ((sigFields ofs size crc).take j ++ phFields.drop j) = crc32 (sigFields ofs size crc) := by
+  obtain ⟨ofs, size, crc, body, rfl, ha'⟩ := sessionOps_shape cfg ms ops h
+  rw [ha] at ha'
+  rw [Option.some.inj ha']
+  rcases create_crash_verdict ofs size crc body n k with h1 | h2 | ⟨j, hj, h3, h4⟩
+  · exact Or.inl h1
+  · exact Or.inr (Or.inl h2)
+  · exact Or.inr (Or.inr ⟨ofs, size, crc, j, hj, h3, h4⟩)
+
+theorem session_encoded_crash_verdict {σ} (cfg : WConfig σ) (hcfg : HConfig σ) (ms : List WMember)
+    (ops : List WriteOp) (img : Bytes)
+    (h : sessionOpsEncoded cfg hcfg ms = some ops) (ha : sessionArchiveEncoded cfg hcfg ms = some img) (n k : Nat) :
+    startHeaderOk (crashImage [] ops n k) = false ∨ crashImage [] ops n k = img ∨
+    ∃ ofs size crc j, j < 16 ∧ (sigFields ofs size crc).take j ++ phFields.drop j ≠ sigFields ofs size crc ∧
+      crc32 ((sigFields ofs size crc).take j ++ phFields.drop j) = crc32 (sigFields ofs size crc) := by
+  obtain ⟨ofs, size, crc, body, rfl, ha'⟩ := sessionOpsEncoded_shape cfg hcfg ms ops h
+  rw [ha] at ha'
+  rw [Option.some.inj ha']
+  rcases create_crash_verdict ofs size crc body n k with h1 | h2 | ⟨j, hj, h3, h4⟩
+  · exact Or.inl h1
+  · exact Or.inr (Or.inl h2)
+  · exact Or.inr (Or.inr ⟨ofs, size, crc, j, hj, h3, h4⟩)
 
 example : startHeaderOk skeleton = false := by decide +kernel
 example : crashImage [] [⟨0, [1, 2, 3]⟩, ⟨5, [9, 9]⟩, ⟨1, [7]⟩] 2 0 = [1, 2, 3, 0, 0, 9, 9] ∧
